@@ -77,6 +77,12 @@ def run(ctx):
     ctx.attempt(r1510, ctx, rep)
     rep.rule('R15.12', 'a source hands out the stream it closes: no buffering wrapper of its own is put around a stream that open() closes underneath it (what the wrapper still holds would be lost)')
     ctx.attempt(r1512, ctx, rep)
+    rep.rule('R15.14', 'the writers and their tee twins agree (C16 R16.2 imported): what to* writes for a table is what the tee of that format writes, so a change of one side only is a change of the format')
+    ctx.attempt(r1514, ctx, rep)
+    rep.rule('R15.15', 'options handed on by position arrive under their own name: no caller passes its `write_header` where the callee expects `protocol` (arguments bound to the callee\'s signature)')
+    from .plumbing import check_positional_crossing as _cross
+    ctx.attempt(_cross, ctx, rep, 'R15.15', ['petl.io'])
+    rep.held('R15.15', ('petl.io', '*'), 'positional arguments arrive under their own names', '', None)
     rep.rule('R15.13', 'a reader hands on every record as parsed: it does not edit the cells of the row it has read')
     ctx.attempt(r1513, ctx, rep)
     rep.rule('R15.11', 'a writer opens its target on every path to a normal exit: writing a table without rows (or without a header) still creates / truncates the target')
@@ -903,3 +909,22 @@ def r1513(ctx, rep):
             rep.held('R15.13', fn, 'records handed on as parsed', '', fn.node)
     if n < 3:
         raise AnalysisError('anchor vanished: reader iterators')
+
+
+# ------------------------------------------------------------------------ R15.14
+def r1514(ctx, rep):
+    from . import c16
+    from ..report import Report
+    sub = Report('C16', ctx.tier, ctx.root)
+    saved = ctx.report
+    ctx.report = sub
+    try:
+        c16.r162(ctx, sub)
+    finally:
+        ctx.report = saved
+    n = 0
+    for o in sub.obligations:
+        n += 1
+        rep.add('R15.14', (o.module, o.qualname), o.construct, o.status, o.message, o.lineno, o.detail)
+    if n < 4:
+        raise AnalysisError('anchor vanished: only %d writer / tee pairs' % n)
